@@ -654,9 +654,16 @@ def withdraw_rules(R, env, prog, hctx, rule, pid):
         good = False
         why = fmt(amt or ("none",))[:200]
         from engine.analysis import forms as _forms
-        for af in (_forms(prog, amt, 2) if amt is not None else []):
+        # a batch that passed the status == Received test has its received amount (invariant
+        # Withdraw:received-set-with-status below): `received.or(fallback)` is `received`
+        recv_some = ((lambda t_: t_[0] == "field" and t_[2] == "received_native_unstaked" and batch(t_[1])), ("ok", True))
+        cand = (list(_forms(prog, amt, 2)) + list(_forms(prog, amt, 3, (recv_some,)))) if amt is not None else []
+        for af in cand:
             # (a helper such as compute_withdraw_amount(received, request, total), or an accessor of the batch
             # such as batch.withdrawable_native(), is looked through)
+            if af[0] == "payload":
+                from engine.analysis import ok_payload as _okp
+                af = _okp(af[1])
             if not (af[0] == "call" and af[1] == "cosmwasm_std::Uint128::multiply_ratio" and len(af[2]) == 3):
                 continue
             recv, num, den_ = af[2]
@@ -667,6 +674,7 @@ def withdraw_rules(R, env, prog, hctx, rule, pid):
             ):
                 good = True
                 break
+        received_set_with_status(R, env, prog, rule, "Withdraw:received-set-with-status")
         R.ob(rule, "Withdraw:payout-formula", good, "payout = %s; expected received_native_unstaked.multiply_ratio(own request amount, batch_total_liquid_stake) of the batch named in the message" % why, loc=loc, fn=hk)
         R.ob(rule, "Withdraw:payout-denom", ibc_denom(prog, den), "payout denom %s" % fmt(den or ("none",))[:80], loc=loc, fn=hk)
         R.ob(rule, "Withdraw:payee-is-caller", is_sender(agg_field(t, "to_address") or ("none",)), "payout goes to %s" % fmt(agg_field(t, "to_address") or ("none",))[:80], loc=loc, fn=hk)
@@ -806,3 +814,24 @@ def address_validator_shape(R, prog, key, rule, tag="address"):
     R.ob(rule, tag + ":prefix-must-match", ok, "an address whose DECODED prefix differs from the expected prefix is accepted (a textual starts_with test is not enough: `osmovaloper1..` starts with `osmo`): %s" % (off,), fn=key, found=found)
     oks = [e for e in exits(c) if e["kind"] == "ok"]
     R.ob(rule, tag + ":returns-input", bool(oks) and all(e["term"][3][0][2][0] == "param" and e["term"][3][0][2][1] == 1 for e in oks), "the validated address returned is not the input string", fn=key)
+
+
+def received_set_with_status(R, env, prog, rule, name):
+    """invariant behind `received_native_unstaked.unwrap()` (and behind reading the received amount of a
+    Received batch at all): every write that marks a batch Received stores Some(amount) in the same value"""
+    from engine.analysis import storage_ops_deep, resolve_terms
+    sites = site_contexts(prog, "staking", env)
+    okr = False
+    for site, c in sites.items():
+        for o in storage_ops_deep(prog, c, env.depth):
+            if o["kind"] == "w" and ns_of(prog, o["args"][0]) == "batches" and o.get("wop", o["op"]) == "save":
+                v = o.get("value") if o.get("value") is not None else o["args"][-1]
+                for base, d in struct_deltas(resolve_terms(prog, v, env.depth, None, o.get("assumptions", ()))):
+                    cands = [d.get(("status",))] if base[0] != "agg" else [d.get(("status",)) or agg_field(base, "status")]
+                    st = cands[0]
+                    if st is not None and st[0] == "agg" and st[2] == "Received":
+                        rv = d.get(("received_native_unstaked",)) or (agg_field(base, "received_native_unstaked") if base[0] == "agg" else None)
+                        okr1 = rv is not None and rv[0] == "agg" and rv[2] == "Some"
+                        okr = okr or okr1
+                        R.ob(rule, name + ":" + site, okr1, "a batch is marked Received without received_native_unstaked := Some(..) in the same save", loc=o["loc"], fn=o["fn"])
+    R.ob(rule, name, okr, "no site marks a batch Received together with the received amount", fn="staking")
